@@ -37,6 +37,51 @@ func NewCtx(p *load.Program, prop, tier string) *Ctx {
 	c := &Ctx{P: p, S: oblig.NewSet(prop), Tier: tier,
 		paths: map[*ssa.Function][]*pathx.Path{}, stats: map[*ssa.Function]pathx.Stats{}, Extras: map[string]any{}}
 	c.funcs = p.SourceFuncs(p.Root)
+	// error sentinels: package-level variables of an interface type that only
+	// the package initialiser assigns (loads of them compare like constants)
+	assigned := map[*ssa.Global]bool{}
+	pkgInit := p.Root.Func("init")
+	for _, pk := range []*ssa.Package{p.Root, p.Test} {
+		if pk == nil {
+			continue
+		}
+		for _, f := range p.SourceFuncs(pk) {
+			if f == pkgInit || (f.Name() == "init" && f.Synthetic != "") {
+				continue
+			}
+			for _, b := range f.Blocks {
+				for _, ins := range b.Instrs {
+					if st, ok := ins.(*ssa.Store); ok {
+						if g, ok := st.Addr.(*ssa.Global); ok {
+							assigned[g] = true
+						}
+					}
+					// an address that escapes may be written through
+					if call, ok := ins.(ssa.CallInstruction); ok {
+						for _, a := range call.Common().Args {
+							if g, ok := a.(*ssa.Global); ok {
+								assigned[g] = true
+							}
+						}
+					}
+				}
+			}
+		}
+	}
+	sentinel := map[*ssa.Global]bool{}
+	pathx.SentinelGlobal = func(g *ssa.Global) bool {
+		if v, ok := sentinel[g]; ok {
+			return v
+		}
+		ok := false
+		if g.Pkg == p.Root || g.Pkg == p.Test {
+			if pt, isP := g.Type().(*types.Pointer); isP && types.IsInterface(pt.Elem()) && !assigned[g] {
+				ok = true
+			}
+		}
+		sentinel[g] = ok
+		return ok
+	}
 	return c
 }
 
